@@ -66,6 +66,10 @@ structure St where
   deriving Repr, DecidableEq
 
 def i32Max : Nat := 2147483647
+/-- `MAX_SIXEL_SIZE` / `MAX_SIXEL_COLORS` (regenerated): raster attributes, repeat counts, cursor positions and colour
+    registers beyond them are parse errors (two `fix:` commits) -/
+def maxSize : Nat := Gen.Sixel.maxSixelSize
+def maxColors : Nat := Gen.Sixel.maxSixelColors
 /-- single allocation requests above this many elements/bytes are outside the modelled range -/
 def hugeLimit : Nat := 67108864
 
@@ -123,6 +127,7 @@ def translate (s : St) (ch : Char) : Out St :=
   if ch.toNat < 63 then .err .invalidSixelChar
   else if s.palLen % 4294967296 = 0 then .panic .paletteMod
   else if s.y * 6 + 6 > i32Max then .err .invalidPictureSize        -- `checked_mul(6)`, `checked_add(6)`
+  else if s.x ≥ maxSize ∨ lastLineOf s > maxSize then .err .invalidPictureSize   -- `x_pos >= MAX_SIXEL_SIZE || last_line > MAX_SIXEL_SIZE`
   else
     (growRows s.rows (lastLineOf s)).andThen fun rows =>
     (pixelLoop (ch.toNat - 63) (s.y * 6) (lastLineOf s) s.x [0, 1, 2, 3, 4, 5] rows).andThen fun rows' =>
@@ -169,7 +174,7 @@ def setColor (s : St) : St :=
 /-- `if parsed_numbers.len() > 1 { … set_color_rgb / set_color_hsl … }` -/
 def defineColor (s : St) : Out St :=
   if s.nums.length > 1 then
-    if s.nums.length ≠ 5 then .err .invalidColor
+    if s.nums.length ≠ 5 ∨ s.color ≥ maxColors then .err .invalidColor
     else match s.nums[1]? with
       | some 2 =>
         match s.nums[2]?, s.nums[3]?, s.nums[4]? with
@@ -188,7 +193,7 @@ def colorArm (s : St) : Out St := defineColor (setColor s)
 
 /-- the non-digit, non-';' arm of `SixelState::ReadSize` up to the final `parse_sixel_data(ch)` -/
 def sizeArm (s : St) : Out St :=
-  if s.nums.length < 2 ∨ s.nums.length > 4 then .err .invalidPictureSize
+  if s.nums.length < 2 ∨ s.nums.length > 4 ∨ (s.nums.drop 2).any (fun n => decide (n > maxSize)) then .err .invalidPictureSize
   else match s.nums[0]?, s.nums[1]? with
     | some vs, some hs =>
       if s.nums.length = 3 then
@@ -222,7 +227,8 @@ def parseChar (s : St) (ch : Char) : Out St :=
     if ch.isDigit then .ok { s with nums := pushDigit s.nums ch }
     else match s.nums.head? with
       | some n =>
-        (repeatN (fun t => sixelData t ch) n s).andThen fun s' => .ok { s' with state := .read }
+        if n > maxSize then .err .invalidPictureSize
+        else (repeatN (fun t => sixelData t ch) n s).andThen fun s' => .ok { s' with state := .read }
       | none => .err .numberMissing
 
 /-- `for ch in data.chars() { self.parse_char(ch)?; }` -/
